@@ -20,7 +20,7 @@ import (
 // M2: TLC enumerates every well-typed tree with <= 3 binary operators (plus one / two unary
 //     prefixes on any node) and emits the minimal-parenthesis token string with the expected values
 //     under four environments; each string is evaluated by the real parser + VM.
-// M3: seeded random expressions with 4-6 operators, nested unary prefixes and redundant
+// M3: seeded random expressions with 4-6 operators (alternating between the two settings), nested unary prefixes and redundant
 //     parentheses are evaluated by the real code and the results validated by Trace_GoExpr
 //     (Eval(Parse(tokens)) in the specification).
 
@@ -67,6 +67,48 @@ func evalGoat(vm *goat.VM, src string) (bool, int64, string, string) {
 	}
 	if len(rets) != 1 {
 		return false, 0, "", fmt.Sprintf("returned %d values", len(rets))
+	}
+	ty := vm.VerifTypeOf(rets[0])
+	switch ty {
+	case "bool":
+		if rets[0].Bool() {
+			return true, 1, "bool", ""
+		}
+		return true, 0, "bool", ""
+	case "int32":
+		return true, int64(rets[0].Int32()), "int", ""
+	}
+	return true, int64(rets[0].Int()), ty, ""
+}
+
+// evalGoatLocals evaluates the expression inside a function whose parameters are the operands (so
+// that they are locals and the code around the expression is what a function body gets): the value is
+// first assigned, then returned.
+func evalGoatLocals(env map[string]int64, src string) (bool, int64, string, string) {
+	vm := goat.New(goat.WithStdout(&bytes.Buffer{}))
+	goat.VerifSetBudget(10000)
+	defer goat.VerifSetBudget(-1)
+	var rets []goat.Value
+	var err error
+	finished, p := runWithWatchdogFast(func() {
+		_, err = vm.Eval(fstest.MapFS{}, "e.go", "func F(a, b, c, d, e int, p, q, r, s, t bool) any {\n\tx := "+src+"\n\treturn x\n}\n")
+		if err != nil {
+			return
+		}
+		args := make([]goat.Value, 0, 10)
+		for _, k := range "abcde" {
+			args = append(args, goat.Int(int(env[string(k)])))
+		}
+		for _, k := range "pqrst" {
+			args = append(args, goat.Bool(env[string(k)] == 1))
+		}
+		rets, err = vm.Call("main.F", 1, args...)
+	})
+	if !finished || p != nil {
+		return false, 0, "", fmt.Sprintf("PANIC escaped: %v", p)
+	}
+	if err != nil {
+		return false, 0, "", "error in run: " + err.Error()
 	}
 	ty := vm.VerifTypeOf(rets[0])
 	switch ty {
@@ -197,7 +239,7 @@ func (t *c05Tree) toks(parentPrec int, right bool) []string {
 }
 
 func checkC05(c *Ctx) {
-	c.Rule = "M2: every well-typed expression tree over int32 operands a..e and bool operands p..t with <=MaxOps binary operators (10 arithmetic/bit, 6 comparison, && || == != on bools), printed with minimal parentheses, plus every placement of one unary prefix (- ^ !) on any node (and a second prefix on the same node), evaluated under 4 environments; M3: seeded random expressions with 4-6 operators, nested prefixes and redundant parentheses; distinct_nontrivial = distinct token strings with >=2 binary operators or a unary prefix"
+	c.Rule = "M2: every well-typed expression tree over int32 operands a..e and bool operands p..t with <=MaxOps binary operators (10 arithmetic/bit, 6 comparison, && || == != on bools), printed with minimal parentheses, plus every placement of one unary prefix (- ^ !) on any node (and a second prefix on the same node), evaluated under 4 environments with the operands as package-level variables, and (every expression in one environment; quick: every second expression) as parameters of a function that assigns the value before returning it; M3: seeded random expressions with 4-6 operators (alternating between the two settings), nested prefixes and redundant parentheses; distinct_nontrivial = distinct token strings with >=2 binary operators or a unary prefix"
 	c.Assumptions = []string{"&^ is not a token of goatlang and is outside the enumerated operator set", "environments avoid nothing: division by zero and negative shift counts are expected run-time errors", "TLC evaluates GoExpr.tla/FixedWidth.tla as written; the Go toolchain calibrates a sample of the enumerated expressions"}
 
 	type job struct {
@@ -290,6 +332,16 @@ func checkC05(c *Ctx) {
 		}
 		for i := range c05Envs {
 			ok, v, ty, errText := evalGoat(vms[i], src)
+			route := "operands are package-level variables"
+			if replayed%int64(c.pick(2, 1)) == 0 && i == int(replayed/2)%len(c05Envs) {
+				// the same expression with its operands as locals of a function (one environment per expression)
+				ok2, v2, ty2, err2 := evalGoatLocals(c05Envs[i], src)
+				c.Evaluations++
+				if ok2 != ok || v2 != v || ty2 != ty {
+					ok, v, ty, errText = ok2, v2, ty2, err2
+					route = "operands are parameters of a function"
+				}
+			}
 			c.Evaluations++
 			bad := ""
 			switch {
@@ -303,7 +355,7 @@ func checkC05(c *Ctx) {
 				bad = "expected a run-time error, got: " + firstLine(errText)
 			}
 			if bad != "" {
-				c.violate(hashKey(src), fmt.Sprintf("expression `%s` under env %d: %s", src, i+1, bad),
+				c.violate(hashKey(src), fmt.Sprintf("expression `%s` under env %d (%s): %s", src, i+1, route, bad),
 					map[string]any{"expression": src, "env": c05Envs[i], "expected_value": e.Vals[i], "expected_ok": e.Oks[i], "observed_value": v, "observed_type": ty, "observed_error": errText})
 				break
 			}
@@ -340,6 +392,9 @@ func checkC05(c *Ctx) {
 		src := strings.Join(toks, " ")
 		env := r.Intn(len(c05Envs))
 		ok, v, oty, errText := evalGoat(vms[env], src)
+		if i%2 == 1 {
+			ok, v, oty, errText = evalGoatLocals(c05Envs[env], src)
+		}
 		c.Evaluations++
 		if strings.HasPrefix(errText, "PANIC") || (!ok && !strings.HasPrefix(errText, "error in run")) {
 			c.violate(hashKey(src), fmt.Sprintf("expression `%s`: %s", src, firstLine(errText)), map[string]any{"expression": src, "error": errText})
